@@ -17,6 +17,7 @@
 #include <opm/input/eclipse/Units/Units.hpp>
 #include <opm/input/eclipse/Deck/Deck.hpp>
 #include <opm/input/eclipse/Deck/DeckItem.hpp>
+#include <opm/input/eclipse/Deck/UDAValue.hpp>
 #include <opm/input/eclipse/Deck/DeckKeyword.hpp>
 #include <opm/input/eclipse/Deck/DeckRecord.hpp>
 #include <opm/input/eclipse/Parser/Parser.hpp>
@@ -421,7 +422,7 @@ std::string writeDeck(const Model& m, const UnitSystem& u) {
         o << " /\n";
     };
     o << "RUNSPEC\n" << u.deck_name() << "\nDIMENS\n " << m.nx << " " << m.ny << " " << m.nz << " /\nOIL\nWATER\nGAS\nDISGAS\nVAPOIL\n"
-      << "START\n 1 'JAN' 2020 /\nWELLDIMS\n 3 3 2 3 /\nTABDIMS\n/\nEQLDIMS\n/\nGRID\n";
+      << "START\n 1 'JAN' 2020 /\nWELLDIMS\n 4 3 2 4 /\nTABDIMS\n/\nEQLDIMS\n/\nGRID\n";
     arr("DX", "Length", m.dx); arr("DY", "Length", m.dy); arr("DZ", "Length", m.dz); arr("TOPS", "Length", m.tops);
     arr("PORO", "1", m.poro); arr("PERMX", "Permeability", m.permx);
     o << "COPY\n PERMX PERMY /\n PERMX PERMZ /\n/\nPROPS\n";
@@ -446,6 +447,9 @@ std::string writeDeck(const Model& m, const UnitSystem& u) {
       << W(u, "Pressure", m.pcowc) << " " << W(u, "Length", m.goc) << " " << W(u, "Pressure", m.pcgoc) << " 1* 1* 0 /\n";
     o << "SCHEDULE\nWELSPECS\n 'P1' 'G' 1 1 " << W(u, "Length", m.refDepth) << " 'OIL' /\n 'I1' 'G' 2 2 1* '" << (m.oilInjector ? "OIL" : "WATER") << "' /\n/\n";
     o << "COMPDAT\n 'P1' 1 1 1 2 'OPEN' 1* 1* " << W(u, "Length", m.diam) << " /\n 'I1' 2 2 1 2 'OPEN' 1* 1* " << W(u, "Length", m.diam) << " /\n/\n";
+    // P2 leaves every limit it can to the defaults (UDA defaults must not depend on the deck units)
+    o << "WELSPECS\n 'P2' 'G' 1 2 1* 'OIL' /\n/\nCOMPDAT\n 'P2' 1 2 1 1 'OPEN' 1* 1* " << W(u, "Length", m.diam) << " /\n/\n";
+    o << "WCONPROD\n 'P2' 'OPEN' 'ORAT' " << W(u, "LiquidSurfaceVolume/Time", m.orat) << " /\n/\n";
     o << "WCONPROD\n 'P1' 'OPEN' 'ORAT' " << W(u, "LiquidSurfaceVolume/Time", m.orat) << " " << W(u, "LiquidSurfaceVolume/Time", m.wrat)
       << " 1* 1* 1* " << W(u, "Pressure", m.bhp) << " /\n/\n";
     o << "WCONINJE\n 'I1' '" << (m.oilInjector ? "OIL" : "WATER") << "' 'OPEN' 'RATE' " << W(u, "LiquidSurfaceVolume/Time", m.injRate) << " 1* "
@@ -522,6 +526,12 @@ void collectStateSI(const Deck& deck, std::map<std::string, double>& out) {
         out["P1.conn" + std::to_string(i) + ".rw"] = conns.get(i).rw();
         out["P1.conn" + std::to_string(i) + ".depth"] = conns.get(i).depth();
     }
+    {
+        const auto& p2 = sched.getWell("P2", 0);
+        const auto pc2 = p2.productionControls(st);
+        out["P2.orat"] = pc2.oil_rate; out["P2.bhp_default"] = pc2.bhp_limit; out["P2.thp_default"] = pc2.thp_limit;
+        out["P2.wrat_default"] = pc2.water_rate; out["P2.refdepth_default"] = p2.getRefDepth();
+    }
     const auto& inj = sched.getWell("I1", 0);
     const auto ic = inj.injectionControls(st);
     out["I1.rate"] = ic.surface_rate; out["I1.bhp"] = ic.bhp_limit;
@@ -537,7 +547,13 @@ int main(int argc, char** argv) {
     const std::string tier = argv[3];
     const std::string outdir = argv[4];
     fs::create_directories(outdir);
-    vh::Rng rng(seed);
+    // vh::Rng(seed) starts at seed*C + c and advances by C per draw, so seeds n and n+1 give the same
+    // stream shifted by one draw; scramble the seed first so that different seeds give unrelated runs.
+    auto mixSeed = [](uint64_t x) {
+        x += 0x9E3779B97F4A7C15ull; x = (x ^ (x >> 30)) * 0xBF58476D1CE4E5B9ull; x = (x ^ (x >> 27)) * 0x94D049BB133111EBull;
+        return x ^ (x >> 31);
+    };
+    vh::Rng rng(mixSeed(seed));
     const bool thorough = tier == "thorough";
 
     std::vector<UnitSystem> systems;
@@ -657,6 +673,25 @@ int main(int argc, char** argv) {
             sink.emit(itemOp(sp), runCalls(it, sp.calls));
             sink.count("item");
             sink.count("item.calls", (long) sp.calls.size());
+        }
+        // (7) UDA items: which dimension get<UDAValue>(i) attaches (stateless)
+        const int nuda = thorough ? 3000 : 400;
+        for (int k = 0; k < nuda; ++k) {
+            ItemSpec sp = randomItem(rng, systems, true);
+            for (auto& v : sp.vals) if (v.first == 'e') v.first = 'd';
+            DeckItem it("X", UDAValue(), sp.active, sp.dflt);
+            for (auto& v : sp.vals) { if (v.first == 'v') it.push_back(UDAValue(v.second)); else it.push_backDefault(UDAValue(v.second)); }
+            const size_t i = rng.below(sp.vals.size() + 2);
+            std::string ans;
+            try {
+                const auto u = it.get<UDAValue>(i);
+                if (u.is_numeric()) ans = "x:" + fbits(u.getSI());
+                else ans = "undef " + dimStr(u.get_dim());
+            } catch (const std::exception&) { ans = "err"; }
+            std::string v = sp.vals.empty() ? "-" : "";
+            for (size_t j = 0; j < sp.vals.size(); ++j) { if (j) v += ","; v += std::string(1, sp.vals[j].first) + ":" + fbits(sp.vals[j].second); }
+            sink.emit("units.uda " + dimSpec(sp.active) + " " + dimSpec(sp.dflt) + " " + v + " " + std::to_string(i), ans);
+            sink.count("uda");
         }
         sink.writeStats(outdir + "/stats.json");
         return 0;
@@ -790,8 +825,17 @@ int main(int argc, char** argv) {
         // (f) deck level: one physical model written in the four unit systems gives the same SI values
         OpmLog::removeAllBackends();
         const int ndecks = thorough ? 40 : 6;
+        double maxVolErrInCondUlps = 0;
         for (int k = 0; k < ndecks; ++k) {
             const Model model = randomModel(rng, k % 2 == 1);
+            double geomCond = 0;
+            {
+                const double zmax = *std::max_element(model.tops.begin(), model.tops.end()) + model.nz * *std::max_element(model.dz.begin(), model.dz.end());
+                const double xmax = model.nx * *std::max_element(model.dx.begin(), model.dx.end());
+                const double ymax = model.ny * *std::max_element(model.dy.begin(), model.dy.end());
+                geomCond = zmax / *std::min_element(model.dz.begin(), model.dz.end()) + xmax / *std::min_element(model.dx.begin(), model.dx.end())
+                         + ymax / *std::min_element(model.dy.begin(), model.dy.end());
+            }
             std::vector<std::map<std::string, double>> deckSI(4), stateSI(4);
             std::vector<std::string> text(4);
             bool allOk = true;
@@ -822,7 +866,12 @@ int main(int argc, char** argv) {
                         // context dependent item: its JSON dimension is the gas-injector one (see writeDeck)
                         if (!lvl && model.oilInjector && base.find("WCONINJE") == 0 && base.find("VAPOIL_C") != std::string::npos) continue;
                         const bool temp = base.find("RTEMP") != std::string::npos;
-                        if (it == oth.end() || !(std::fabs(it->second - kv.second) <= 1e-12 * std::max({ std::fabs(kv.second), std::fabs(it->second), temp ? 300.0 : 0.0 }))) {
+                        // cell volumes come from differences of corner coordinates: the 1-ulp differences of the
+                        // inputs are amplified by depth/thickness (and x/dx, y/dy) — a derived bound, not slack
+                        const double rel = base == "GRID.vol" ? 1e-12 + 64.0 * EPS * geomCond : 1e-12;
+                        if (base == "GRID.vol" && it != oth.end() && kv.second != 0)
+                            maxVolErrInCondUlps = std::max(maxVolErrInCondUlps, std::fabs(it->second - kv.second) / (std::fabs(kv.second) * EPS * geomCond));
+                        if (it == oth.end() || !(std::fabs(it->second - kv.second) <= rel * std::max({ std::fabs(kv.second), std::fabs(it->second), temp ? 300.0 : 0.0 }))) {
                             vh::spit(outdir + "/deck_" + std::to_string(k) + "_METRIC.DATA", text[0]);
                             vh::spit(outdir + "/deck_" + std::to_string(k) + "_" + std::to_string(t) + ".DATA", text[t]);
                             log.fail(std::string(lvl ? "deck.state." : "deck.item.") + base, "deck " + std::to_string(k) + " METRIC " + g17(kv.second) + " vs " + UnitSystem(ALL_TYPES[t]).getName() + " " + (it == oth.end() ? "missing" : g17(it->second)) + " at " + kv.first);
@@ -873,6 +922,7 @@ int main(int argc, char** argv) {
         std::ofstream f(outdir + "/prop_stats.json");
         f << "{\n  \"checked\": " << log.checked << ",\n  \"failed\": " << log.failed;
         for (auto& kv : stats) f << ",\n  \"" << kv.first << "\": " << kv.second;
+        f << ",\n  \"max_cell_volume_error_in_units_of_eps_times_condition\": " << maxVolErrInCondUlps;
         f << "\n}\n";
         return 0;
     }
